@@ -82,7 +82,10 @@ func corpus(out *lib.Out) {
 		{A(lib.SelUnion()), deep},
 		{lib.SelRec(none, A(lib.SelUnion()), ""), deep},
 		{lib.SelRec(2, A(lib.SelRec(2, A(E()), "")), ""), deep},
-		// subset matchers
+		// subset matchers (matched bytes nodes are views over the original; each is read three times when dumped)
+		{A(lib.SelSubset(4, 8)), lib.List(lib.Bytes("0123456789abcdefghij"), lib.Bytes("0123456789abcdefghijk"), lib.Str("0123456789abcdefghij"))},
+		{A(lib.SelSubset(2, 5)), lib.List(lib.Bytes("hello world"), lib.Bytes("hello world!"))},
+		{lib.SelUnion(A(lib.SelSubset(1, 2)), A(lib.SelSubset(4, 8))), lib.List(lib.Bytes("0123456789abcdefghijk"))},
 		{A(lib.SelSubset(1, 3)), lib.List(lib.Str("hello"), lib.Bytes("hello"), lib.Int(5), lib.Str(""), lib.Str("é€"))},
 		{A(lib.SelSubset(-3, -1)), lib.List(lib.Str("hello"), lib.Bytes("hello"), lib.Str("ab"))},
 		{A(lib.SelSubset(2, 100)), lib.List(lib.Str("hello"), lib.Bytes("h"), lib.Str("ab"))},
